@@ -8,17 +8,21 @@
    (Format/Enc) writes - this is what makes `pqref fmt_validate / fmt_decode` a VERIFIED independent
    reader rather than another implementation.
 
-   FULL statement aimed at (DESIGN section 6):
-     spec_roundtrip : forall f, lfile_wf f -> table_of f = Some t ->
-        dec_file decompress strict (enc_file compress f) = ROk t /\ valid_file decompress strict (enc_file compress f) = ROk tt
-   Proved so far: every layer up to the page loop of a column chunk (`..._partial` below); the file-level
-   assembly (locating each chunk by its offsets inside the concatenation, footer typed-view round trip)
-   is checked per run on every generated file by the correspondence of C03 and is not yet a theorem. *)
+   spec_roundtrip (DESIGN section 6) is proved at FILE level (C02_spec_roundtrip_partial): for every
+   well-formed laid-out file f (any number of row groups, columns, pages; v1/v2; optional/required; PLAIN,
+   dictionary indices of width <= 32 in any run mixture, RLE booleans, DELTA_BINARY_PACKED with any block
+   shape whose miniblocks hold a multiple of 8 values; any compressor satisfying the Section hypothesis)
+   dec_file (enc_file f) = table_of f and valid_file (enc_file f) = Valid.  It is named _partial for one
+   reason only: `footer_ok` - the encoder's own footer is representable in the compact protocol
+   (integers within their widths, nesting <= 64, footer < 4 GiB) AND conforms to the IDL table - is a
+   hypothesis (decidable; evaluated by fmt_validate on every file the encoder produces in the C03 run);
+   the conformance half should be a lemma and is not proved yet.                                     *)
 From Coq Require Import String.
 From Coq Require Import NArith ZArith List Bool Arith.
 From Pq Require Import Base.Bytes Base.ListX Codec.Hybrid Thrift.Compact Format.Phys Format.Meta Format.Page
   Format.ChunkLayout Format.File Format.Enc
-  Proofs.ChunkLayoutProofs Proofs.HybridProofs Proofs.FormatCodecProofs Proofs.FormatPageProofs Proofs.FormatChunkProofs.
+  Proofs.ChunkLayoutProofs Proofs.HybridProofs Proofs.FormatCodecProofs Proofs.FormatPageProofs Proofs.FormatChunkProofs
+  Proofs.FormatMetaProofs Proofs.FormatFileProofs.
 Import ListNotations.
 Open Scope list_scope.
 
@@ -88,9 +92,9 @@ Print Assumptions C02_spec_page_header_roundtrip.
 
 (* any page (dictionary, data v1, data v2; optional/required; PLAIN, dictionary indices of any width <= 32
    in any mixture of RLE and bit-packed runs, RLE booleans; compressed or not; v2 is_compressed
-   absent/true/false): decoding the encoder's header and payload gives the page's denotation.
-   DELTA_BINARY_PACKED is excluded by store_wf (its codec-level round trip is not proved yet). *)
-Theorem C02_spec_page_roundtrip_partial :
+   absent/true/false; DELTA_BINARY_PACKED): decoding the encoder's header and payload gives the page's
+   denotation. *)
+Theorem C02_spec_page_roundtrip :
   forall (compress : Z -> bytes -> bytes) (decompress : Z -> N -> bytes -> option bytes),
   (forall codec b, decompress codec (lenN b) (compress codec b) = Some b) ->
   forall strict cd codec dict it c,
@@ -98,12 +102,12 @@ Theorem C02_spec_page_roundtrip_partial :
   let hp := enc_item compress cd codec it in
   dec_page decompress strict cd codec dict (fst hp) (snd hp) = ROk c.
 Proof. exact item_roundtrip. Qed.
-Print Assumptions C02_spec_page_roundtrip_partial.
+Print Assumptions C02_spec_page_roundtrip.
 
 (* column chunk: the page loop over the concatenated pages (headers parsed back to back until the
    bytes are used up, dictionary pages replacing the dictionary in force) returns the page summaries
    the bookkeeping checker looks at, the cells in order and the number of NULLs *)
-Theorem C02_spec_chunk_roundtrip_partial :
+Theorem C02_spec_chunk_roundtrip :
   forall (compress : Z -> bytes -> bytes) (decompress : Z -> N -> bytes -> option bytes),
   (forall codec b, decompress codec (lenN b) (compress codec b) = Some b) ->
   forall strict cd codec its clock dict pages cells nulls contents,
@@ -116,7 +120,43 @@ Theorem C02_spec_chunk_roundtrip_partial :
          rev cells ++ concat (map content_cells contents),
          nulls + fold_right N.add 0 (map content_nulls contents)).
 Proof. exact scan_pages_roundtrip. Qed.
-Print Assumptions C02_spec_chunk_roundtrip_partial.
+Print Assumptions C02_spec_chunk_roundtrip.
+
+(* the footer: typed view of the generic value the encoder writes gives the records back *)
+Theorem C02_spec_footer_view_roundtrip : forall m, fmd_of_tv (fmd_to_tv m) = Some m.
+Proof. exact fmd_of_to. Qed.
+Print Assumptions C02_spec_footer_view_roundtrip.
+
+(* the encoder's ColumnMetaData passes the bookkeeping checker on the page summaries the scan produces
+   (sizes, counts, dictionary/data page offsets, encodings) for every chunk with the dictionary page first *)
+Theorem C02_spec_chunk_metadata_valid :
+  forall (compress : Z -> bytes -> bytes) l start c,
+  its_shape (lc_items c) ->
+  check_chunk (cmeta_of (chunk_meta compress l start c)) (summaries compress (desc_of l) (lc_codec c) (lc_items c)) = true.
+Proof. exact enc_chunk_check. Qed.
+Print Assumptions C02_spec_chunk_metadata_valid.
+
+(* FILE level.  lfile_wf = leaves well-typed, every row group has one well-formed chunk per leaf (pages
+   well-formed, page headers within i32), footer_ok; rg_strict = dictionary page first and alone, all
+   chunks of a row group have the same number of rows. *)
+Theorem C02_spec_roundtrip_partial :
+  forall (compress : Z -> bytes -> bytes) (decompress : Z -> N -> bytes -> option bytes),
+  (forall codec b, decompress codec (lenN b) (compress codec b) = Some b) ->
+  forall strict f t,
+  lfile_wf compress f -> Forall rg_strict (l_rgs f) -> table_of f = Some t ->
+  dec_file decompress strict (enc_file compress f) = ROk t /\
+  valid_file decompress strict (enc_file compress f) = ROk tt.
+Proof. exact spec_roundtrip. Qed.
+Print Assumptions C02_spec_roundtrip_partial.
+
+(* decoding alone needs no strictness: a second dictionary page in a chunk, unequal row counts ... *)
+Theorem C02_spec_roundtrip_dec_partial :
+  forall (compress : Z -> bytes -> bytes) (decompress : Z -> N -> bytes -> option bytes),
+  (forall codec b, decompress codec (lenN b) (compress codec b) = Some b) ->
+  forall strict f t, lfile_wf compress f -> table_of f = Some t ->
+  dec_file decompress strict (enc_file compress f) = ROk t.
+Proof. exact spec_roundtrip_dec. Qed.
+Print Assumptions C02_spec_roundtrip_dec_partial.
 
 (* ---------------- non-vacuity -------------------------------------------------------------------- *)
 Example C02_nonvacuous :
